@@ -16,7 +16,7 @@ for p in props:
     thms = cov.get('theorems', [])
     gen = getattr(mod, 'GEN', [])
     # theorems whose statement mentions a definition regenerated from the source on every run
-    GENRX = {'C01': r'^(gen_|coefs_refines|fugRow_getD)', 'C08': r'.', 'C10': r'^gen_', 'C16': r'^gen_', 'C11': r'^(eos_density_scaleInvariant|diameter_prescribed_eos)$',
+    GENRX = {'C01': r'^(gen_|coefs_refines)', 'C08': r'.', 'C10': r'^gen_', 'C16': r'^gen_', 'C11': r'^(eos_density_scaleInvariant|diameter_prescribed_eos)$',
              'C13': r'.', 'C15': r'(table|database|keys|chem_(rules|single|convert)|ambient_(convert|real))', 'C20': r'.'}
     genthm = [t for t in thms if p in GENRX and re.search(GENRX[p], t.split('.')[-1])]
     seeds = []
